@@ -33,7 +33,7 @@ def ESC : Char := Char.ofNat 27
 
 /-! ## colour arguments -/
 
-/-- a Python number: an `int` (also of a subclass other than `bool`), or a `float` with the value `num / den` (`den > 0`; `7.0` is
+/-- a Python number: an `int` (also of a subclass, `bool` included), or a `float` with the value `num / den` (`den > 0`; `7.0` is
 `flt 7 1`: it compares and hashes equal to `int 7` but is not an `int`) -/
 inductive Num where
   | int (n : Int)
@@ -54,7 +54,7 @@ def Num.gt5 : Num → Bool
 inductive ColorSpec where
   | none                      -- `None`
   | str (s : List Char)       -- any `str`
-  | int (n : Int)             -- any `int`, also of a subclass (IntEnum member, …) but not `bool`
+  | int (n : Int)             -- any `int`, also of a subclass (IntEnum member, `bool`: `True` is 1, …)
   | float (num : Int) (den : Nat)   -- any finite `float`
   | tuple (xs : List Num)     -- a tuple (also namedtuple / subclass) of numbers, any length
   | other                     -- a hashable object of another type (`bytes`, …)
